@@ -473,12 +473,10 @@ func (x *c02Exec) genBindings() {
 	for i, n := range knames {
 		spec := c02MonSpec{id: 0, kind: rng.Range(1, 2), keep: rng.Bool(), flt: rng.Intn(2)}
 		if rng.Chance(50) {
-			perm := []int{1, 2, 3, 4}
-			rng.Shuffle(4, func(a, b int) { perm[a], perm[b] = perm[b], perm[a] })
-			spec.nss = append([]int{}, perm[:rng.Range(1, 3)]...)
+			spec.nss = c02PickList(rng, 3)
 		}
 		if rng.Chance(20) {
-			spec.names = []int{rng.Range(1, 4)}
+			spec.names = c02PickList(rng, 2)
 		}
 		_ = i
 		x.binds = append(x.binds, c02Bind{typ: "k", name: n, group: PickOne(rng, groups), incl: someKube(2), spec: spec})
